@@ -62,8 +62,8 @@ func Lit(v interface{}) *Node {
 
 func ConstRef(name string, v interface{}) *Node { n := Lit(v); n.Const = name; return n }
 func Var(name string, ty Ty) *Node              { return &Node{Kind: KVar, Name: name, Ty: ty} }
-func Op(name string, ty Ty, ch ...*Node) *Node   { return &Node{Kind: KOp, Name: name, Ch: ch, Ty: ty} }
-func If(c, a, b *Node) *Node                     { return &Node{Kind: KIf, Name: "if", Ch: []*Node{c, a, b}, Ty: a.Ty} }
+func Op(name string, ty Ty, ch ...*Node) *Node  { return &Node{Kind: KOp, Name: name, Ch: ch, Ty: ty} }
+func If(c, a, b *Node) *Node                    { return &Node{Kind: KIf, Name: "if", Ch: []*Node{c, a, b}, Ty: a.Ty} }
 
 func isAndName(s string) bool { return s == "and" || s == "&" || s == "&&" }
 func isOrName(s string) bool  { return s == "or" || s == "|" || s == "||" }
